@@ -10699,6 +10699,11 @@ impl SctpTransport {
     pub async fn verif_handle_packet(&self, packet: Bytes) -> Result<()> {
         self.inner.handle_packet(packet).await
     }
+
+    /// C07: send the INIT of a client-side association (starts T1) without running the run loop.
+    pub async fn verif_send_init(&self) -> Result<()> {
+        self.inner.send_init().await
+    }
 }
 
 /// verif hook (lifecycle, C17): set / clear the association close reason so the
